@@ -42,6 +42,12 @@ type vSliceErr []string
 
 func (e vSliceErr) Error() string { return "validation failed" }
 
+// vTimeoutErr is a net-style timeout error: Timeout() is true, it wraps no context error
+type vTimeoutErr struct{}
+
+func (vTimeoutErr) Error() string { return "i/o timeout" }
+func (vTimeoutErr) Timeout() bool { return true }
+
 // vCustomErr is a custom-typed error (for errors.As checks).
 type vCustomErr struct{ code int }
 
